@@ -46,5 +46,5 @@ claim('C19', 'exhaustive exact grids per degree 0..8 (Fractions) + Hypothesis-ge
       'DESIGN.md 2/C19')
 claim('C11', 'Hypothesis-generated segment pairs in constructed crossing/tangent/near-miss/disjoint/random configurations and path pairs; validity predicate on every returned pair + operand-swap metamorphic check',
       'About 1.5k (quick) / 60k (thorough) ordered pairs over all 16 type pairs (arcs circular/elliptic, rotated or not) at three scales; every returned (t1,t2) must be in range and name coincident points within the stated tolerance, swapped operands must report the same interior crossings, Path.intersect tuples must be coherent.',
-      'Trusts: point() (C03/C04); end-point crossings are excluded from the swap comparison; exceptions tolerated as the property allows; tangential curved pairs are sampled thinly (seconds each), with a per-case timeout counted as inconclusive.',
+      'Trusts: point() (C03/C04); exceptions tolerated as the property allows; tangential curved pairs are sampled thinly (seconds each), with a per-case timeout counted as inconclusive.',
       'DESIGN.md 2/C11')
